@@ -22,7 +22,7 @@ Custom == {"c1", "c2"}
 VARIABLES level,      \* manifests signed so far
           present,    \* set of <<m, kind>> assertions whose data is still in the store
           requests,   \* requests[j] = the redaction set of edit j (j >= 2)
-          verdict     \* "valid" | "refused" (sticky: nothing is built on a refused edit)
+          verdict     \* "valid" | "refused" | "invalid" (sticky: nothing is built on a refused or invalid edit)
 vars == <<level, present, requests, verdict>>
 
 All(j) == {<<j, k>> : k \in Kinds}
@@ -40,7 +40,20 @@ Edit(R) == /\ level < Depth /\ verdict = "valid"
               /\ IF \A t \in R : Allowed(j, t)
                  THEN verdict' = "valid" /\ present' = (present \ R) \cup All(j)
                  ELSE verdict' = "refused" /\ UNCHANGED present
-Next == \E R \in SUBSET Targets(level + 1) : Edit(R)
+\* a generator that does not refuse: the forbidden redaction of an ingredient manifest's actions / hard binding is carried out
+\* and signed; the validator goes by the redaction list of the claim and must call the result invalid
+RogueEdit(R) == /\ level < Depth /\ verdict = "valid"
+                /\ LET j == level + 1 IN
+                   /\ R \subseteq Targets(j) /\ R # {}
+                   /\ \A t \in R : t[1] < j /\ t \in present
+                   /\ \E t \in R : t[2] \notin Custom
+                   /\ level' = j
+                   /\ requests' = Append(requests, R)
+                   /\ present' = (present \ R) \cup All(j)
+                   /\ verdict' = "invalid"
+Conforming == \E R \in SUBSET Targets(level + 1) : Edit(R)
+Rogue == \E R \in SUBSET Targets(level + 1) : RogueEdit(R)
+Next == Conforming \/ Rogue
 Spec == Init /\ [][Next]_vars
 
 \* ---- properties of the design
@@ -48,7 +61,8 @@ OnlyRequestedRemoved == verdict = "valid" =>
       present = (UNION {All(j) : j \in 1..level}) \ (UNION {requests[j] : j \in 1..level})
 BindingsNeverRedacted == \A j \in 1..level : verdict = "valid" => (<<j, "hash">> \in present /\ <<j, "actions">> \in present)
 OwnNeverRedacted == verdict = "valid" => \A j \in 2..level : \A t \in requests[j] : t[1] < j
-ForbiddenRefused == (\E j \in 2..level : \E t \in requests[j] : t[2] \notin Custom \/ t[1] = j) => verdict = "refused"
-TypeOK == level \in 1..Depth /\ verdict \in {"valid", "refused"}
+ForbiddenRefused == (\E j \in 2..level : \E t \in requests[j] : t[2] \notin Custom \/ t[1] = j) => verdict \in {"refused", "invalid"}
+TypeOK == level \in 1..Depth /\ verdict \in {"valid", "refused", "invalid"}
+W_Rogue == verdict # "invalid"
 W_DeepRedaction == ~(level = 3 /\ verdict = "valid" /\ <<1, "c1">> \in requests[3])
 =============================================================================
